@@ -5,7 +5,7 @@
    Models: Aggregates.v (plain_aggregates, pointwise_aggregates as coded), Tentative.v,
    Coarsen.v (aggregation, smoothed_aggregation, ruge_stuben as coded). *)
 From Amgcl Require Import Scalar QcInst Vec Crs Kernels MatOps MatOps2 MatOps2Proofs Aggregates Tentative Coarsen CoarsenProofs.
-From Amgcl Require Import Qr QrMathRefl QrMathR TentativeQr TentativeQrProofs TentativeQrR EminProofs2 EminProofs3.
+From Amgcl Require Import Qr QrMathRefl QrMathR TentativeQr TentativeQrProofs TentativeQrR TentativeQrOracle TentativeQrGuard EminProofs2 EminProofs3.
 Local Open Scope S_scope.
 
 (* ---------------------------------------------------------------- 1. plain_aggregates (any S)
@@ -462,7 +462,53 @@ Theorem C04_tentative_qr_coarse_upper (bs cols naggr : nat) (id : list Z) (B : m
   forall i r c, i < Nat.div naggr bs -> r < cols -> c < r ->
     mentry (nth i (snd (tentative_prolongation_qr bs cols naggr id B q0)) []) r c = s0.
 Proof. exact (tentative_qr_coarse_upper S Sft Seqb Hadj Habs Hsqrt Hreal bs cols naggr id B q0). Qed.
+
+(* the boolean oracles o.ns_exact evaluates on the implementation's (P, B_coarse) are implied by these theorems *)
+Theorem C04_tentative_qr_oracles_complete (bs cols naggr : nat) (id : list Z) (B : mat (S:=S)) (q0 : vec S) :
+  0 < cols ->
+  (forall k, k < length id -> (0 <= zget id k)%Z -> Nat.div (Z.to_nat (zget id k)) bs < Nat.div naggr bs) ->
+  (forall i, i < Nat.div naggr bs -> cols <= length (members bs id i)) ->
+  let PB := tentative_prolongation_qr bs cols naggr id B q0 in
+  ns_reproduces_ok cols id B (fst PB) (snd PB) = true /\ ns_orthonormal_ok (fst PB) = true.
+Proof. exact (tentative_qr_oracles_complete S Sft Seqb Hadj Habs Hsqrt Hreal bs cols naggr id B q0). Qed.
+
+(* the whole pipeline of transfer_operators() for block_size 1: aggregates computed with min_aggregate =
+   nullspace.cols (remove_small_aggregates), then the tentative prolongation; no hypothesis on aggregate sizes left *)
+Theorem C04_nullspace_pipeline_exact (eps2 : S) (cols : nat) (A : crs S) (junk : vec S) count id st (B : mat (S:=S)) (q0 : vec S) :
+  0 < cols ->
+  pointwise_aggregates eps2 1 cols A junk = AggOk count id st ->
+  let PB := tentative_prolongation_qr 1 cols count id B q0 in
+  let P := fst PB in
+  nrows P = nrows A /\ ncols P = (cols * count)%nat /\
+  (forall k c, k < nrows A -> (0 <= zget id k)%Z -> c < cols ->
+     ns_apply S cols (snd PB) (nth k (rows P) []) c = mentry B k c) /\
+  (forall j1 j2, j1 < ncols P -> j2 < ncols P ->
+     sumn (fun k => mget P k j1 * mget P k j2) (nrows P) = if Nat.eqb j1 j2 then s1 else s0).
+Proof. exact (nullspace_pipeline_exact S Sft Seqb Hadj Habs Hsqrt Hreal eps2 cols A junk count id st B q0). Qed.
 End NullSpaceQR.
+
+(* the guard itself (any S): with block_size 1, every aggregate pointwise_aggregates returns has at least
+   max(1, min_aggregate) members, ids of aggregated rows are below count *)
+Theorem C04_min_aggregate_guard (S : Scalar) (eps2 : S) (mina : nat) (A : crs S) (junk : vec S) count id st :
+  pointwise_aggregates eps2 1 mina A junk = AggOk count id st ->
+  length id = nrows A /\
+  (forall k, k < length id -> (0 <= zget id k)%Z -> Nat.div (Z.to_nat (zget id k)) 1 < Nat.div count 1) /\
+  forall i, i < Nat.div count 1 -> 1 <= length (members 1 id i) /\ mina <= length (members 1 id i).
+Proof. exact (min_aggregate_guard eps2 mina A junk count id st). Qed.
+Print Assumptions C04_min_aggregate_guard.
+
+Theorem C04_nullspace_pipeline_exact_R (eps2 : RS) (cols : nat) (A : crs RS) (junk : vec RS) count id st (B : mat (S:=RS)) (q0 : vec RS) :
+  0 < cols ->
+  pointwise_aggregates eps2 1 cols A junk = AggOk count id st ->
+  let PB := tentative_prolongation_qr 1 cols count id B q0 in
+  let P := fst PB in
+  nrows P = nrows A /\ ncols P = (cols * count)%nat /\
+  (forall k c, k < nrows A -> (0 <= zget id k)%Z -> c < cols ->
+     ns_apply RS cols (snd PB) (nth k (rows P) []) c = mentry B k c) /\
+  (forall j1 j2, j1 < ncols P -> j2 < ncols P ->
+     sumn (fun k => mget P k j1 * mget P k j2) (nrows P) = if Nat.eqb j1 j2 then s1 else s0).
+Proof. exact (C04_nullspace_pipeline_exact RS RS_field RS_eqb RS_adj RS_abs RS_sqrt RS_real eps2 cols A junk count id st B q0). Qed.
+Print Assumptions C04_nullspace_pipeline_exact_R.
 
 (* the hypotheses are satisfiable: closed instances at the real numbers of the standard library with the
    true square root (the axioms of Reals are printed) *)
